@@ -26,7 +26,9 @@ def bellConfig (j : Json) : Option Config := do
 def handleBell (op : String) (j : Json) : Option Json :=
   if op == "bell.emit" then do
     let c ← bellConfig j
-    pure (Json.mkObj [("cmds", match emit Gen.data c with
+    let create := ((jField? j "create").bind jBool?).getD false
+    let args := ((jField? j "args").bind jInt?).getD 0
+    pure (Json.mkObj [("cmds", match (if create then emitCreate Gen.data Gen.creatorData c args else emit Gen.data c) with
       | some cs => Json.arr (cs.map (fun c => Json.str c.render)).toArray
       | none => Json.null)])
   else if op == "bell.idsinit" then do
